@@ -121,7 +121,7 @@ func solverBin() (string, []string) {
 		f := strings.Fields(s)
 		return f[0], f[1:]
 	}
-	return "z3", []string{"-in", "-memory:3000"}
+	return "z3-new", []string{"-in", "-memory:3000"}
 }
 
 func (p *pool) worker(wid int, wg *sync.WaitGroup) {
@@ -174,6 +174,10 @@ func (p *pool) worker(wid int, wg *sync.WaitGroup) {
 				continue
 			}
 			s.TimeoutS = h.Meta.TimeoutS
+			if d := os.Getenv("VERIF_SMTLOG"); d != "" {
+				f, _ := os.Create(filepath.Join(d, fmt.Sprintf("%s-w%d.smt2", h.Meta.Name, wid)))
+				s.Log = f
+			}
 			s.Init()
 			s.Incr = true
 			m := exec.NewMachine(ctx, s, h.Group.Prog)
